@@ -862,8 +862,21 @@ func (sc *Scope) trSel(x *ESel) (Term, types.Type) {
 			// heap well-formedness, as for instruction-level loads: a reference
 			// read from the heap was allocated before the state it is read in
 			if len(sc.bound) == 0 && fc.cur != nil && sc.mode != "global" {
+				ref := cur
+				isRef := false
 				switch curT.Underlying().(type) {
 				case *types.Pointer, *types.Map, *types.Chan:
+					isRef = true
+				case *types.Slice:
+					if pseudoKind(curT) == "" {
+						isRef = true
+						ref = T(SInt, "(s_arr %s)", cur.S)
+						fc.assume(T(SBool, "(and (<= 0 (s_off %[1]s)) (<= 0 (s_len %[1]s)) (<= (s_len %[1]s) (s_cap %[1]s)) (=> (= (s_arr %[1]s) 0) (= (s_cap %[1]s) 0)))", cur.S))
+					}
+				}
+				if isRef {
+					cur0 := cur
+					cur = ref
 					al := fc.lookupIn(sc.curEnv(), "alloc")
 					fc.assume(T(SBool, "(and (>= %s 0) (<= %s %s))", cur.S, cur.S, al.S))
 					for _, ev := range fc.allocEvents {
@@ -876,6 +889,7 @@ func (sc *Scope) trSel(x *ESel) (Term, types.Type) {
 							break
 						}
 					}
+					cur = cur0
 				}
 			}
 			continue
@@ -1001,6 +1015,26 @@ func (sc *Scope) trCall(x *ECall) (Term, types.Type) {
 		}
 		dom, _, _ := fc.mapVars(mt)
 		return T(SBool, "(and (not (= %s 0)) %s)", m.S, Select(Select(fc.lookupIn(sc.curEnv(), dom), m), k).S), tBool
+	case "arr":
+		// identity of a slice's backing array (0 for a nil slice)
+		sl, sty := arg(0)
+		if _, ok := sty.Underlying().(*types.Slice); !ok || pseudoKind(sty) != "" {
+			sc.fail("arr: not a slice")
+		}
+		return T(SInt, "(s_arr %s)", sl.S), tInt
+	case "allocated":
+		// the reference was allocated no later than the state it is named in
+		// (true of every reference of a real state; lets invariants separate
+		// older objects from ones allocated later)
+		r, rty := arg(0)
+		al := fc.lookupIn(sc.curEnv(), "alloc")
+		switch rty.Underlying().(type) {
+		case *types.Slice:
+			return T(SBool, "(<= (s_arr %s) %s)", r.S, al.S), tBool
+		case *types.Pointer, *types.Map, *types.Chan:
+			return T(SBool, "(<= %s %s)", r.S, al.S), tBool
+		}
+		sc.fail("allocated: not a reference")
 	case "row", "rowoff":
 		// the backing array of a slice as a value, and the slice's offset into it
 		sl, sty := arg(0)
